@@ -375,7 +375,7 @@ class C08(core.PropertyCheck):
 
     ROLE_KINDS = [["", "plain"], ["", "callable"], ["", "cmdline_option"], ["dbcmd", "plain"], ["bin", "plain"], ["phpmethod", "callable"]]
     ROLE_ATOMS = ["a", "db.coll.find", "()", "(x, y)", "(", ")", "(\n)", "\n(", " ", "  ", "\t", "\n", "<", ">", "\x00<", "\x00>", "\x00", '\x00"', "~", "!",
-                  "dbcmd", "dbcmd.", "bin.", "--port", "mongod", "label", "<t>", " <t>", "\x00 ", ".", "É"]
+                  "dbcmd", "dbcmd.", "bin.", "--port", "mongod", "label", "<t>", " <t>", "\x00 ", ".", "É", "bin", "bindiff", "dbcmds"]
 
     def gen_role(self, rng):
         pfx, ty = rng.choice(self.ROLE_KINDS)
@@ -384,7 +384,7 @@ class C08(core.PropertyCheck):
             tgt = "".join(rng.choice(self.ROLE_ATOMS) for _ in range(rng.randint(1, 4)))
             text = rng.choice(["", "label", "two words ", "l\x00<x\x00> "]) + rng.choice(["<", " <", "  <"]) + rng.choice(["", "~", "!"]) + tgt + ">"
         elif r < 0.6:
-            text = rng.choice(["", "~", "!"]) + rng.choice(["db.coll.find", "find", "mongod --port", "--port", "a b  c", "dbcmd.find", "bin.mongod"]) + \
+            text = rng.choice(["", "~", "!"]) + rng.choice(["db.coll.find", "find", "mongod --port", "--port", "a b  c", "dbcmd.find", "bin.mongod", "bindiff", "bin", "binary.x", "dbcmdline"]) + \
                 rng.choice(["", "()", "(a, b)", " ()", "() ", "(a)(b)", ")("])
         else:
             text = "".join(rng.choice(self.ROLE_ATOMS) for _ in range(rng.randint(0, 6)))
@@ -715,7 +715,8 @@ class C08(core.PropertyCheck):
         if parens and case["type"] != "callable":
             return None
         want = name
-        if case["prefix"] and not want.startswith(case["prefix"]):
+        # the definition side registers prefix + "." + name for EVERY name; a reference may spell the prefix out
+        if case["prefix"] and not want.startswith(case["prefix"] + "."):
             want = case["prefix"] + "." + want
         if role["target"] != want:
             return f"role text {text!r} ({case['prefix']!r}, {case['type']}) links {role['target']!r}, expected {want!r}"
